@@ -129,6 +129,8 @@ type FnCtx struct {
 	defers  []*ssa.Defer
 	allocN  int
 	retReach []Term
+	lemma     *Lemma
+	lemmaVars map[string]TV
 	results []*ssa.Alloc // named result allocs in order, if any
 	curPos  token.Pos
 	nameCnt map[string]int
